@@ -11,7 +11,10 @@ Record case := mkcase {
   c_input_ok : bool;                 (* x unchanged by to_dict *)
   c_arg : prim;                      (* the argument given to from_dict: to_dict(x) without the entries of fields that
                                         have an encoding_fn but no decoding_fn (those fall back to their default) *)
+  c_typed : option (string * ty);    (* Some (module, runtime classes): c_arg was produced with save_dc_types=True; the
+                                        type tree is what the DC_TYPE_KEY entries locate (a subclass in a base-typed field) *)
   c_from : res value;                (* observed from_dict(c_arg) *)
+  c_from2 : res value;               (* observed from_dict(c_arg) once more, on the very same dict *)
   c_arg_ok : bool;                   (* from_dict left its argument unchanged *)
   c_from_fresh : bool;               (* the new instance shares no mutable node with the argument *)
   c_twin : option (res prim)         (* to_dict of an == instance whose sets were filled in another order *)
@@ -26,7 +29,16 @@ Fixpoint safe_dump_ok (p : prim) : bool :=
   | _ => true
   end.
 
-Definition model_from (c : case) : res value := decode_c c.(c_ty) c.(c_arg).
+Definition model_from (c : case) : res value :=
+  match c.(c_typed) with
+  | Some (_, rty) => decode_c rty (strip_key DC_TYPE_KEY c.(c_arg))
+  | None => decode_c c.(c_ty) c.(c_arg)
+  end.
+Definition model_arg_ok (c : case) : bool :=
+  match c.(c_typed) with
+  | Some (m, _) => prim_eqb (add_types DC_TYPE_KEY m c.(c_val) (to_dict_c c.(c_val))) c.(c_arg)
+  | None => true
+  end.
 
 Definition in_scope (c : case) : bool :=
   negb (has_bad (to_dict_c c.(c_val))) && negb (is_scope_err (model_from c)).
@@ -36,7 +48,9 @@ Definition model_ok (c : case) : bool :=
   res_prim_eqb (Ok p) c.(c_todict)
   && Bool.eqb (json_ok p) c.(c_json)
   && Bool.eqb (safe_dump_ok p) c.(c_yaml)
-  && res_vsame (model_from c) c.(c_from).
+  && model_arg_ok c
+  && res_vsame (model_from c) c.(c_from)
+  && res_vsame (model_from c) c.(c_from2).
 
 Definition spec_ok (c : case) : bool :=
   match c.(c_todict) with
@@ -46,5 +60,6 @@ Definition spec_ok (c : case) : bool :=
       && c.(c_arg_ok) && c.(c_from_fresh)
       && hooks_ok encf_lib c.(c_val) p
       && match c.(c_from) with Ok v' => from_hooks_ok decf_lib c.(c_arg) v' | Err _ => true end
+      && res_vsame c.(c_from) c.(c_from2)
       && match c.(c_twin) with Some r => res_prim_eqb r (Ok p) | None => true end
   end.
